@@ -17,6 +17,26 @@ while read f; do
   fi
 done < /tmp/integrate-$pkg.list
 mv /tmp/integrate-$pkg.own /tmp/integrate-$pkg.list
+# a package may have synced other packages' files from /verif at some earlier state: keep only
+# paths that belong to the package by name
+case $pkg in
+  robust) pat='rob_|ROB|C05|C19|10_rob|11_rob|inventory|review/' ;;
+  fileio) pat='fio|FIO|C02|C03' ;;
+  trees) pat='trs|TRS|C16|C17|16_trees' ;;
+  charcode) pat='cc_|CC|C12|C13|12_charcode' ;;
+  crypto) pat='sec_|SEC|C09|C10|09_sec' ;;
+  copier) pat='cpy|CPY|C11|11_cpy' ;;
+  conc) pat='conc|CONC|C18|18_conc' ;;
+  fonts) pat='fnt|FNT|C14|14_fonts' ;;
+  content) pat='cnt|CNT|C15|15_content' ;;
+  history) pat='his|HIS|C04|C20|40_his' ;;
+  filtersA) pat='fa_|FA|C06fa|C07fa|C08fa|20_fa|notes/C0[678]' ;;
+  filtersB) pat='fb_|FB|C06fb|C07fb|C08fb|20_fb|structs.go' ;;
+  translator) pat='tr_|TR|tr\.lean|translate|5[01]_tr|Fn' ;;
+  c01deep) pat='C01|c01|Format.lean|Scan.lean' ;;
+  *) pat='.' ;;
+esac
+grep -E "$pat|^(check|setup.sh|checks.json|lean/Main.lean|lean/PdfVerif.lean|KNOWN_FINDINGS.txt|tools/extract/main.go)$" /tmp/integrate-$pkg.list > /tmp/integrate-$pkg.own; mv /tmp/integrate-$pkg.own /tmp/integrate-$pkg.list
 echo "== new/changed files"; grep -Ev "$shared" /tmp/integrate-$pkg.list
 echo "== shared files changed (merge by hand)"; grep -E "$shared" /tmp/integrate-$pkg.list
 if [ "$apply" = "--apply" ]; then
